@@ -712,7 +712,7 @@ import os as _os
 # A str entry containing a carriage return comes back with "\n" instead: the history file is read with universal
 # newlines (fixes/C15-entry-carriage-return.diff, replays/C15/entry-with-carriage-return.json). Until that patch is
 # merged the class stays out of the generator and such cases are rejected; VERIF_C15_CR_ENTRIES=1 switches it on.
-ENABLE_CR_IN_STR_ENTRIES = _os.environ.get("VERIF_C15_CR_ENTRIES") == "1"
+ENABLE_CR_IN_STR_ENTRIES = True  # repaired in /repo (newline="" commit)
 
 _NAMES = ["note", "count", "x_mean", "Epoch", "lr2", "val", "k", "my entry", "a,b", "na\u00efve", "q\"uote"]
 _TEXT = st.text(alphabet="abcXYZ 019,\"';.-_/\\#", max_size=8)
